@@ -48,6 +48,24 @@ def run_validator(name, value):
     raise AssertionError(name)
 
 
+def run_schema_validator(cc, sv, cfg):
+    """The pool of schema-level validators: pure predicates over what the configuration currently holds."""
+    name = sv["name"]
+    if name == "sv_ok":
+        return
+    if name == "sv_max_set":
+        n = sum(1 for key, value in cfg if value is not None and not isinstance(value, cc.Config))
+        if n > sv["k"]:
+            raise ValueError("more than %d values set (%d)" % (sv["k"], n))
+        return
+    if name == "sv_min_set":
+        n = sum(1 for key, value in cfg if value is not None and not isinstance(value, cc.Config))
+        if n < sv["k"]:
+            raise ValueError("fewer than %d values set (%d)" % (sv["k"], n))
+        return
+    raise AssertionError(name)
+
+
 def _string_base(opts, value, required):
     """StringField semantics: type gate, transforms (strip, case), emptiness, length, pattern, choices."""
     if not isinstance(value, str):
